@@ -464,7 +464,7 @@ type jx struct {
 	calls    int // calls started and not returned
 	shutSeen bool
 	exitSeen bool
-	inRound  bool   // the loop is inside the delivery round of Publish call roundTok (from loop.errs until it is idle / gone)
+	inRound  bool // the loop is inside the delivery round of Publish call roundTok (from loop.errs until it is idle / gone)
 	roundTok uint64
 }
 
@@ -1168,8 +1168,8 @@ func joeRunScenario(v val.V, seq uint64, shm []byte) (status uint64, events []va
 			defer x.ctlEnd(true)
 			x.waitStages(pt.start, jHard, true)
 			objs := make([]*sse.Message, len(pt.msgs))
-			var buf []string      // the thread's one topics slice (flags&2)
-			var bufTok uint64     // the last call that passed it
+			var buf []string  // the thread's one topics slice (flags&2)
+			var bufTok uint64 // the last call that passed it
 			for k := range pt.msgs {
 				ms := &pt.msgs[k]
 				p := base + uint64(k)
